@@ -1,17 +1,17 @@
 SPECIFICATION Spec
 CONSTANTS
-  Pods = {1, 2}
+  Pods = {1, 2, 3}
   Reqs = {1, 2, 3}
-  Slots = {1, 2}
+  Slots = {1}
   Addrs = {1, 2, 3}
-  Cap = 2
+  Cap = 3
   Batch = 1
   MaxIdle = 0
   FixCollector = TRUE
   FixPinned = TRUE
   FixKeep = TRUE
   FixDangling = TRUE
-  FixABA = TRUE
-  DriftOn = FALSE
+  FixABA = FALSE
+  DriftOn = TRUE
 INVARIANTS Exclusive NeverUnassignHeld NeverDeleteInUse HeldBacked QuotaAddr NoGhostOwner TrackedEqualsCloud
 CHECK_DEADLOCK FALSE
